@@ -76,7 +76,7 @@ jobs:
     needs: b
     runs-on: foo
     steps:
-      - run: echo ${{ needs.b.outputs.cout }} ${{ vars.VAR1 }}
+      - run: echo ${{ needs.b.outputs.cout }} ${{ vars.VAR1 }} ${{ nosuchcontext.x }}
 `
 
 var c01ActionSeeds = map[string]string{
@@ -259,6 +259,31 @@ func TestVerifC01(t *testing.T) {
 			for _, p := range cat.Keys {
 				if p.Line > 1 {
 					positions = append(positions, p)
+				}
+			}
+			// whole sections replaced: every key that introduces a block (its value spans further
+			// lines) gets a scalar / null / empty collection instead of that block
+			for _, k := range cat.Keys {
+				if k.EndLine <= k.Line || k.Line <= 1 {
+					continue
+				}
+				keyLine := cat.Lines[k.Line-1]
+				if !strings.HasSuffix(strings.TrimRight(keyLine, " "), ":") {
+					continue
+				}
+				for _, f := range []string{"", " ~", " null", " []", " {}", " x", " 1", " true", " [~]", " {a: ~}", " ''", " *sanc", " !!map {}", " |\n" + strings.Repeat(" ", k.Col+1) + "text"} {
+					idx++
+					if !r.Mine(idx) {
+						continue
+					}
+					lines := append([]string{}, cat.Lines[:k.Line-1]...)
+					lines = append(lines, strings.TrimRight(keyLine, " ")+f)
+					lines = append(lines, cat.Lines[k.EndLine:]...)
+					content := strings.Join(lines, "\n")
+					what := fmt.Sprintf("seed %s section %s replaced by %q", sname, k.Path, f)
+					r.Begin(func() string { return "channel=" + ch.name + " " + what })
+					res := ch.run(t, dir, content)
+					c01Oracle(r, ch, what, res, map[string]any{"channel": ch.name, "content": content})
 				}
 			}
 			frags := append(append([]string{}, c01Inline...), deepFrags...)
